@@ -24,6 +24,7 @@ import (
 	"context"
 	"fmt"
 	"os"
+	"runtime"
 	"sync"
 	"sync/atomic"
 	"testing"
@@ -113,7 +114,7 @@ func c03Window(start, hwBefore, hwAfter int64) (lo, hi int64) {
 func TestVerifC03Stress(t *testing.T) {
 	rep := kit.NewReport("C03", "stress")
 	defer rep.Write()
-	rep.SetRule("concurrent runs under -race: 1 appender (batches 1..5, MaxSegmentBytes in {64,200,1000}), 1 goroutine calling checkAndPerformSplit, 1 HW advancer (steps anywhere <= newest, incl. 0 and lower values), optional read-only toggles, K committed readers created at PRNG times/offsets (0, inside, =HW, HW+1, far beyond, on the empty log); 3 delay profiles at hook points; per read: offset <= HW sampled after, content f(seed,offset), consecutive per reader, HW samples monotone; after quiescence every reader must deliver through the final HW (parked-in-hwWaiters-while-pending = lost wake-up); non-trivial = run rolled >=3 segments, >=1 reader parked and >=1 reader was created beyond the HW; distinct = (segment size, messages, reader starts, profile)")
+	rep.SetRule("concurrent runs under -race: 1 appender (batches 1..5, MaxSegmentBytes in {64,200,1000}), 1 goroutine calling checkAndPerformSplit, 1 HW advancer (steps anywhere <= newest, incl. 0 and lower values; in a third of the runs 2 concurrent advancers, as commit loop and RF=1 fast path are in the server: after SetHighWatermark(h) returned the HW must be >= h, >= what the caller saw before and <= the largest value requested), optional read-only toggles, K committed readers created at PRNG times/offsets (0, inside, =HW, HW+1, far beyond, on the empty log); 3 delay profiles at hook points; per read: offset <= HW sampled after, content f(seed,offset), consecutive per reader, HW samples monotone; after quiescence every reader must deliver through the final HW (parked-in-hwWaiters-while-pending = lost wake-up); non-trivial = run rolled >=3 segments, >=1 reader parked and >=1 reader was created beyond the HW; distinct = (segment size, messages, reader starts, profile)")
 	rep.Assume("the HW is only moved to offsets <= newest offset (leader behaviour); a follower adopting a leader HW beyond its own log end is not part of this workload")
 	verifhook.Set(c03Hook)
 	defer verifhook.Set(nil)
@@ -141,7 +142,10 @@ func TestVerifC03Stress(t *testing.T) {
 	}
 	rep.Count("reader_parks_at_hook", c03Parks.Load())
 	rep.Count("split_cas_wins", c03SplitWins.Load())
+	rep.Count("runs_with_two_concurrent_hw_writers", c03TwoAdv.Load())
 }
+
+var c03TwoAdv atomic.Int64
 
 func c03Run(rep *kit.Report, idx int, seed uint64, profile int, follower bool) {
 	rng := kit.NewRNG(seed)
@@ -272,22 +276,33 @@ func c03Run(rep *kit.Report, idx int, seed uint64, profile int, follower bool) {
 			time.Sleep(80 * time.Microsecond)
 		}
 	}()
-	// HW advancer (the only HW writer, so its own samples must be monotone and
-	// exactly what it set).  Not in follower mode: there the replication loop
-	// (the appender above) is the only HW writer.
-	wg.Add(1)
-	go func() {
+	// HW advancer(s).  With one advancer it is the only HW writer, so its own
+	// samples must be monotone and exactly what it set.  In a third of the runs
+	// TWO advancers run concurrently (in the server the commit loop and the
+	// RF=1 fast path of the message loop both call SetHighWatermark): then
+	// after SetHighWatermark(h) has returned the HW must be >= h, >= anything
+	// this advancer saw before, and <= the largest value anybody asked for.
+	// Not in follower mode: there the replication loop (the appender above) is
+	// the only HW writer.
+	twoAdv := !follower && rng.Chance(1, 3)
+	var maxReq atomic.Int64
+	maxReq.Store(-1)
+	advancer := func(id uint64) {
 		defer wg.Done()
 		if follower {
 			return
 		}
-		r := kit.NewRNG(seed ^ 0xB)
+		r := kit.NewRNG(seed ^ 0xB ^ (id << 8))
 		cur := int64(-1)
+		seen := int64(-1)
 		for {
 			n := appended.Load() - 1
 			done := writerDone.Load()
 			if done {
 				n = appended.Load() - 1
+			}
+			if twoAdv && cur < seen {
+				cur = seen // the other advancer moved it
 			}
 			var h int64
 			switch x := r.Intn(10); {
@@ -309,21 +324,46 @@ func c03Run(rep *kit.Report, idx int, seed uint64, profile int, follower bool) {
 			if done {
 				h = n
 			}
+			for {
+				m := maxReq.Load()
+				if h <= m || maxReq.CompareAndSwap(m, h) {
+					break
+				}
+			}
 			l.SetHighWatermark(h)
 			if h > cur {
 				cur = h
 			}
-			if got := l.HighWatermark(); got != cur {
-				fail("C03:hw-not-monotone", fmt.Sprintf("after SetHighWatermark(%d) the HW is %d, expected %d (single HW writer)", h, got, cur))
+			got := l.HighWatermark()
+			hi := maxReq.Load()
+			if !twoAdv {
+				if got != cur {
+					fail("C03:hw-not-monotone", fmt.Sprintf("after SetHighWatermark(%d) the HW is %d, expected %d (single HW writer)", h, got, cur))
+					return
+				}
+			} else if got < h || got < seen || got > hi {
+				fail("C03:hw-not-monotone:two-writers", fmt.Sprintf("two concurrent HW writers: after SetHighWatermark(%d) returned the HW reads %d (this writer saw %d before; largest value requested by anybody so far %d)", h, got, seen, hi))
 				return
 			}
-			if done && cur == n {
+			seen = got
+			if done && got == n {
 				finalSet.Store(true)
 				return
 			}
-			time.Sleep(time.Duration(r.Intn(300)) * time.Microsecond)
+			if twoAdv && r.Chance(1, 2) {
+				runtime.Gosched()
+			} else {
+				time.Sleep(time.Duration(r.Intn(300)) * time.Microsecond)
+			}
 		}
-	}()
+	}
+	wg.Add(1)
+	go advancer(0)
+	if twoAdv {
+		c03TwoAdv.Add(1)
+		wg.Add(1)
+		go advancer(1)
+	}
 	// read-only toggler
 	if withRO {
 		auxWg.Add(1)
